@@ -14,7 +14,9 @@ TB_COMMON = [KERNEL, 'axioms: propext, Classical.choice, Quot.sound only (audite
 # theorem registry: property -> [(module, [theorem names])]
 THEOREMS = {
     'C11': [('ChessVerif.Props.C11', ['Chess.Props.C11_slider', 'Chess.Props.C11_leapers', 'Chess.Props.C11_lines', 'Chess.Props.C11_pawn'])],
-    'C01': [('ChessVerif.Props.C01', ['Chess.Props.C01_leaper_geometry_partial', 'Chess.Props.C01_slider_geometry_partial', 'Chess.Props.C01_castling_paths_partial',
+    'C01': [('ChessVerif.Props.C01', ['Chess.Props.C01_king_moves_exact', 'Chess.Props.C01_castling_exact', 'Chess.Props.C01_castling_emitted',
+                                     'Chess.Props.C01_forbidden_squares', 'Chess.Props.C01_forbidden_nocheck', 'Chess.Props.C01_in_check_test',
+                                     'Chess.Props.C01_leaper_geometry_partial', 'Chess.Props.C01_slider_geometry_partial', 'Chess.Props.C01_castling_paths_partial',
                                      'Chess.Props.C01_king_moves_partial', 'Chess.Props.C01_pins_partial'])],
     'C02': [('ChessVerif.Props.C02', ['Chess.Props.C02_full', 'Chess.Props.C02_replay_legal', 'Chess.Props.C02_step', 'Chess.Props.C02_replay', 'Chess.Props.C02_castling_clock']),
             ('ChessVerif.Lemmas.OKDec', ['Chess.specHypothesesHold_sound'])],
@@ -33,9 +35,9 @@ THEOREMS = {
                                      'Chess.Props.C10_capacities', 'Chess.Props.C10_piece_lists'])],
     'C12': [('ChessVerif.Props.C12', ['Chess.Props.C12_kpk', 'Chess.Props.C12_mirror', 'Chess.Props.C12_certificate', 'Chess.Props.C12_index', 'Chess.Props.C12_normalize'])],
     'C13': [('ChessVerif.Props.C13', ['Chess.Props.C13_geometry', 'Chess.Props.C13_normSq_mirror', 'Chess.Props.C13_combine_neg', 'Chess.Props.C13_phase_symm'])],
-    'C14': [('ChessVerif.Props.C14', ['Chess.Props.C14_cache_transparent', 'Chess.Props.C14_cap_partial'])],
+    'C14': [('ChessVerif.Props.C14', ['Chess.Props.C14_cache_transparent', 'Chess.Props.C14_bounded', 'Chess.Props.C14_constants', 'Chess.Props.C14_cap_partial'])],
     'C15': [('ChessVerif.Props.C15', ['Chess.Props.C15_capture_quiet_full', 'Chess.Props.C15_quiet', 'Chess.Props.C15_castling', 'Chess.Props.C15_capture_rules'])],
-    'C17': [('ChessVerif.Props.C17', ['Chess.Props.C17_matcher_piece', 'Chess.Props.C17_matcher_pawn', 'Chess.Props.C17_castling'])],
+    'C17': [('ChessVerif.Props.C17', ['Chess.Props.C17_roundtrip', 'Chess.Props.C17_matcher_piece', 'Chess.Props.C17_matcher_pawn', 'Chess.Props.C17_castling'])],
     'C18': [('ChessVerif.Props.C18', ['Chess.Props.C18_tables', 'Chess.Props.C18_anchors', 'Chess.Props.C18_pieces', 'Chess.Props.C18_key_noep', 'Chess.Props.C18_key'])],
     'C16': [('ChessVerif.Props.C16', ['Chess.Props.C16_encoding', 'Chess.Props.C16_encoding_move', 'Chess.Props.C16_castle_code', 'Chess.Props.C16_moveinfo',
                                      'Chess.Props.C16_uci_text', 'Chess.Props.C16_uci_plain', 'Chess.Props.C16_uci_castle'])],
@@ -520,6 +522,45 @@ VALUE_MATE_C = 640000
 MAX_DEPTH_C = 40
 
 
+def relocate_variants(rng, fen, n):
+    """positions with the same pawn structure: one non-pawn piece (often a king) moved to a random empty square, rights and ep dropped"""
+    f = fen.split()
+    rows = f[0].split('/')
+    board = []
+    for r in rows:
+        row = []
+        for c in r:
+            if c.isdigit():
+                row += [''] * int(c)
+            else:
+                row.append(c)
+        board.append(row)
+    pieces = [(r, c) for r in range(8) for c in range(8) if board[r][c] and board[r][c] not in 'Pp']
+    kings = [(r, c) for (r, c) in pieces if board[r][c] in 'Kk']
+    empties = [(r, c) for r in range(8) for c in range(8) if not board[r][c]]
+    out = []
+    for _ in range(n):
+        if not pieces or not empties:
+            break
+        src = rng.choice(kings) if (kings and rng.random() < 0.6) else rng.choice(pieces)
+        dst = rng.choice(empties)
+        b2 = [row[:] for row in board]
+        b2[dst[0]][dst[1]] = b2[src[0]][src[1]]
+        b2[src[0]][src[1]] = ''
+        txt = []
+        for row in b2:
+            t, run = '', 0
+            for c in row:
+                if c:
+                    t += (str(run) if run else '') + c
+                    run = 0
+                else:
+                    run += 1
+            txt.append(t + (str(run) if run else ''))
+        out.append(' '.join(['/'.join(txt), f[1], '-', '-'] + f[4:]))
+    return out
+
+
 def check_C13(ctx):
     import random
     ok = V.prepare(ctx, thm('C13'))
@@ -532,9 +573,25 @@ def check_C13(ctx):
     per = max(1, len(allf) // (NPROC * 2))
     texts = ['ztab 9\n' + ''.join(f'pos {f}\neval\npos {mirror_fen(f)}\neval\n' for f in allf[i:i + per]) for i in range(0, len(allf), per)]
     ctx.cov['rule'] = (f'{len(fens)} positions from the corpus, the lab and spec-generated games plus {len(eg)} random placements of every specialised endgame material class (both colours, '
-                       'Spec.wf-filtered), each evaluated together with its mirror image (ranks flipped, colours/rights/ep/side swapped) by a fresh evaluator; model vs C++ on every value, '
+                       'Spec.wf-filtered), each evaluated together with its mirror image (ranks flipped, colours/rights/ep/side swapped) by a fresh evaluator, and warm sessions through ONE evaluator (a position, a same-pawn-structure variant with a king or piece relocated, then the variant\'s mirror); model vs C++ on every value, '
                        'and the property eval(p) == eval(mirror p) on the C++ outputs whenever enough_material holds')
     md, sd = V.three_way(ctx, texts, lambda l, s: l if l.startswith('eval ') else None, 'static evaluation', spec_proj=lambda l, s: None)
+    # the same property through ONE long-lived evaluator (what the search uses): a position, then positions with the same pawn
+    # structure but a king / piece elsewhere, then the mirror image of the last one — anything the evaluator keeps between calls
+    # (pawn cache, per-evaluation scratch) shows up as eval(p) != eval(mirror p) here although fresh evaluators agree
+    warm_src = [f for f in fens if any(c in f.split()[0] for c in 'Pp')]
+    rng.shuffle(warm_src)
+    nw = 60 if ctx.tier == 'quick' else 1500
+    cand = [(f, g) for f in warm_src[:nw] for g in relocate_variants(rng, f, 3)]
+    okv = set(wf_filter(ctx, [g for _, g in cand]))
+    warm = [(f, g) for f, g in cand if g in okv]
+    ctx.count('warm_mirror_sessions', len(warm))
+    wper = max(1, len(warm) // (NPROC * 2))
+    wtexts = ['ztab 9\n' + ''.join(f'evalclear\npos {f}\nevalw\npos {g}\nevalw\npos {mirror_fen(g)}\nevalw\n' for f, g in warm[i:i + wper])
+              for i in range(0, len(warm), wper)]
+    if wtexts:
+        V.three_way(ctx, wtexts, lambda l, s: l if l.startswith('evalw ') else None, 'static evaluation through one evaluator',
+                    spec_proj=lambda l, s: l if l.startswith('evalw ') else None)
     # the property itself, on the implementation
     from concurrent.futures import ThreadPoolExecutor
     bad = []
@@ -553,6 +610,26 @@ def check_C13(ctx):
                         bad.append((d['fen'], ev, evm))
                     ctx.count('mirror_pairs')
                 i += 4
+    wbad = []
+
+    def wwork(t):
+        return t, V.run_cpp(ctx.exe, t)[1]
+    with ThreadPoolExecutor(max_workers=NPROC) as ex:
+        for t, C in ex.map(wwork, wtexts):
+            # per session: evalclear, pos f, evalw, pos g, evalw, pos mirror g, evalw  (7 ops after the ztab line)
+            i = 1
+            while i + 6 < len(C):
+                stg, evg, stm2, evm2 = C[i + 3], C[i + 4], C[i + 5], C[i + 6]
+                if stg.startswith('fen=') and evg.startswith('evalw') and evm2.startswith('evalw'):
+                    d = V.parse_state(stg)
+                    if d.get('mat') == '1' and evg != evm2:
+                        wbad.append((t.splitlines()[i + 1][4:], d['fen'], evg, evm2))
+                    ctx.count('warm_mirror_pairs')
+                i += 7
+    if wbad:
+        f0, g, a, b = wbad[0]
+        V.report_violation(ctx, f'through one long-lived evaluator the evaluation is not colour-symmetric on {len(wbad)} positions (state kept between evaluations)',
+                           f'evalclear\npos {f0}\nevalw\npos {g}\nevalw\npos {mirror_fen(g)}\nevalw\n# {a} vs mirrored {b}\n', True, ident=g + a + b)
     if bad:
         f, a, b = bad[0]
         V.report_violation(ctx, f'evaluation is not colour-symmetric on {len(bad)} positions',
@@ -1026,7 +1103,7 @@ def check_C06(ctx):
         return None
     ctx.cov['rule'] = (f'part 1: stop() called at exactly node visit k (k in {ks[:8]}... {len(ks)} values) and at go-entry / after-init / iteration-end / before-bestmove on capture-rich and corpus '
                        'positions; the hook trace must show no node expanded after the call, a bounded number of unwinding visits and exactly one bestmove.  part 2: the real two-thread UCI front end '
-                       'driven through pipes with the search thread parked (VERIF_PARK) at each schedule point while stop/isready arrive: one bestmove within 2 s of the stop, readyok while parked.  '
+                       'driven through pipes with the search thread parked (VERIF_PARK) at each schedule point — incl. right after its k-th clock read (steady_clock::now interposed by the harness) — while stop/isready arrive: one bestmove within 2 s of the stop, readyok while parked.  '
                        'part 3: the same sessions under ThreadSanitizer')
     judge(ctx, runs, 'stop handling (deterministic schedule points)', fail1)
     # part 2: real threads
@@ -1041,6 +1118,11 @@ def check_C06(ctx):
         jobs.append((fen, (4, 1, 400), 'go depth 2', False))
         for k in (1, 2, 3, 4, 6):
             jobs.append((fen, None, 'go infinite', ('info', k)))
+        # point 9 = the search thread's k-th clock read (interposed steady_clock::now): the stop lands between the read and whatever
+        # the code decides from it
+        for k in (1, 2, 3, 5, 9, 17, 33):
+            jobs.append((fen, (9, k, 400), 'go infinite', True))
+        jobs.append((fen, (9, 4, 400), 'go movetime 60000', True))
     from concurrent.futures import ThreadPoolExecutor
 
     def one(j):
@@ -1140,6 +1222,13 @@ def check_C08(ctx):
             # follow the engine's own line with a warm table, as a GUI would
             ops += ['playbest', 'go depth 3', 'playbest', 'go depth 3']
         texts.append('\n'.join(ops) + '\n')
+        # the table after RESTRICTED searches of the same position (searchmoves subsets, most of them without the mating move):
+        # whatever they leave behind, the next unrestricted search of depth >= 1 must still deliver the mate in one
+        if kind == '1':
+            ops = [f'pos {fen}']
+            for d in (2, 1, 3):
+                ops += [f'smgo {rng.randrange(1 << 30)} {d}', f'smgo {rng.randrange(1 << 30)} {rng.randrange(1, 4)}', f'go depth {rng.randrange(1, 4)}']
+            texts.append('\n'.join(ops) + '\n')
     # ordinary and zugzwang-rich positions: no mate may be announced
     for fen in search_positions(ctx, 30 if ctx.tier == 'quick' else 300, rng):
         texts.append(f'pos {fen}\ngo depth {rng.randrange(1, 4)}\ngo depth {rng.randrange(2, 5)}\nplaybest\ngo depth 3\n')
@@ -1153,7 +1242,7 @@ def check_C08(ctx):
         texts.append(f'newgame\npos {fen}\n' + ''.join(f'go depth {d}\n' for d in (1, 2, 3, 4)) + 'playbest\ngo depth 3\n')
     runs = go_run(ctx, texts)
     ctx.cov['rule'] = (f'{len(mates)} positions with a forced mate in 1 or 2 found by the SPEC solver (some with half-move clock 97-99), searched at depths 1..4 and then followed along the engine\'s own '
-                       'moves with a warm table (playbest), plus corpus and pawn-endgame positions at depths 1..5; every final "score mate y" is checked by the exhaustive solver (|y| <= 3), mate-in-one '
+                       'moves with a warm table (playbest), unrestricted searches right after searchmoves-restricted searches of the same mate-in-one position, plus corpus and pawn-endgame positions at depths 1..5; every final "score mate y" is checked by the exhaustive solver (|y| <= 3), mate-in-one '
                        'must be played, and no node may return a value beyond VALUE_MATE (acceptor field worst)')
     judge(ctx, runs, 'mate announcements', c08_fail)
     ctx.count('mate_announcements_verified', sum(1 for r in runs if r['spec'].get('mate', '').startswith('ok')))
